@@ -170,8 +170,12 @@ def handleEquiv (j : Json) : R Json := do
       jObj [("sublist", b (v.sublist && out.length == ids.length)), ("separated", b v.separated),
             ("best", b v.bestKept), ("untouched", b v.untouched), ("ok", b (v.ok && out.length == ids.length))]
     | none => Json.null
+  let others ← listOf (listOf fhitOfJson) (fldD j "others" (Json.arr #[]))
   return jObj [
     ("model", match m with | some l => uids l | none => Json.null),
+    ("model_genes", match filterRecord eq (hits :: others) with
+                    | some gs => jArr (gs.map uids) | none => Json.null),
+    ("tie_any", b ((hits :: others).any hasTie)),
     ("spec", v), ("tie", b (hasTie hits)),
     ("groups", jArr ((overlappingGroups hits).map uids)),
     ("nontrivial", b (match m with | some l => l.length < hits.length | none => false))]
